@@ -766,6 +766,18 @@ fn gen_hostile(r: &mut Rng, w: &World) -> Option<Hostile> {
             _ => "disconnect",
         };
         Some(Hostile { gen: "foreign-seal", kind, target, bytes: d, key: Some(key) })
+    } else if pick < 84 && w.genuine.iter().any(|g| g.kind == "request" && g.session.is_none()) {
+        // forged request that copies only the last 16 bytes (the tag) of a genuine, not yet presented
+        // token: garbage nonce and body, presented from a half-open address. Not authentic, so nothing may
+        // change - in particular the genuine token must still connect from its own address afterwards
+        // (final checks).
+        let g = w.genuine.iter().find(|g| g.kind == "request" && g.session.is_none()).unwrap();
+        let mut d = g.bytes.clone();
+        let body = req_off::XNONCE..REQUEST_LEN - 16;
+        let noise = r.bytes(body.len());
+        d[body].copy_from_slice(&noise);
+        let target = Tgt::SrvFrom(*r.pick(&[P, R]));
+        Some(Hostile { gen: "tag-copy-request", kind: "request", target, bytes: d, key: key_towards(w, target) })
     } else if pick < 92 {
         // requests that carry no valid token for this server
         let srv = &w.srv;
